@@ -1101,7 +1101,8 @@ class _Ev:
                     # e.g. list.append / object.__init__
                     return self.effect_call('super().' + meth, ast.Attribute(value=recv, attr=meth, ctx=ast.Load()),
                                             args, kwargs, st, ln)
-                if len(x.call_stack) < x.opts.inline_depth and target not in x.call_stack and not target.is_generator():
+                if len(x.call_stack) < x.opts.inline_depth and target not in x.call_stack and not target.is_generator() \
+                        and meth not in x.opts.no_inline:
                     out = self.inline(target, args, dict(kwargs), st)
                     if out is not None:
                         return out
